@@ -829,6 +829,14 @@ func c14Replay(r *h.Result, path string) error {
 			}
 			c14RunLoop(r, cs)
 			r.Case("replay:"+cs.Query, true)
+		case "history-cross":
+			var cs c14hCase
+			if err := json.Unmarshal(o, &cs); err != nil {
+				return err
+			}
+			if err := c14hReplay(r, cs); err != nil {
+				return err
+			}
 		case "fmt-model":
 			var cs c14FmtCase
 			if err := json.Unmarshal(o, &cs); err != nil {
@@ -840,7 +848,7 @@ func c14Replay(r *h.Result, path string) error {
 				return err
 			}
 		default:
-			return fmt.Errorf("replay: stream %q cannot be replayed (streams with a replay: reexec-traceql, reexec-dirty-logql, reexec-model-metric, retranslate-api, fmt-model, portions-real)", hd.Stream)
+			return fmt.Errorf("replay: stream %q cannot be replayed (streams with a replay: reexec-traceql, reexec-dirty-logql, reexec-model-metric, retranslate-api, fmt-model, portions-real, history-cross)", hd.Stream)
 		}
 	}
 	return nil
